@@ -30,7 +30,7 @@ def char_var(name, alphabet):
 
 
 def norm(chars):
-    chars = list(chars)
+    chars = [c if _isinstance(c, _str) or _len(c.alpha) != 1 else next(iter(c.alpha)) for c in chars]
     if _all(_isinstance(c, _str) for c in chars):
         return ''.join(chars)
     return SStr(chars)
@@ -167,6 +167,12 @@ class SStr:
                 i += 1
         return n
 
+    def endswith(self, pat):
+        pat = chars_of(pat)
+        if _len(pat) > _len(self.chars):
+            return False
+        return bool(self._match_at(_len(self.chars) - _len(pat), pat))
+
     def startswith(self, pat):
         pat = chars_of(pat)
         if _len(pat) > _len(self.chars):
@@ -234,7 +240,7 @@ class SStr:
         sep = chars_of(sep)
         parts, cur, i, n = [], [], 0, _len(self.chars)
         while i < n:
-            if i + _len(sep) <= n and self._match_at(i, sep):
+            if (maxsplit < 0 or _len(parts) < maxsplit) and i + _len(sep) <= n and self._match_at(i, sep):
                 parts.append(norm(cur))
                 cur = []
                 i += _len(sep)
